@@ -138,12 +138,12 @@ def _degenerate(rng, max_jobs, max_machines, small):
             "machines": [[[rng.randrange(max_machines)] for _ in range(k)]],
         }
     if kind == "1op_each":
-        nj = rng.randint(2, max_jobs)
+        nj = rng.randint(2, max(2, max_jobs))
         return {
             "durations": [[_dur(rng, small)] for _ in range(nj)],
             "machines": [[[rng.randrange(max_machines)]] for _ in range(nj)],
         }
-    nj = rng.randint(2, max_jobs)
+    nj = rng.randint(2, max(2, max_jobs))
     durations = [
         [_dur(rng, small) for _ in range(rng.randint(1, 3))] for _ in range(nj)
     ]
